@@ -73,8 +73,18 @@ def write_table(d, name, header, rows, delimiter, encoding):
     return path
 
 
-def write_md(d, name, columns, dialect):
+def write_md(d, name, columns, dialect, url='same'):
     md = {'@context': 'http://www.w3.org/ns/csvw', 'url': name + '.csv', 'tableSchema': {'columns': columns}}
+    if url == 'absent':
+        del md['url']
+    elif url == 'other-existing':
+        # one schema file used for several data files: its url names ANOTHER file that exists beside this one
+        # (an explicitly given path wins over the url)
+        md['url'] = 'other-data.csv'
+        with open(os.path.join(d, 'other-data.csv'), 'w') as f:
+            f.write(','.join('c%d' % k for k in range(len(columns))) + '\n' + ','.join(['1'] * len(columns)) + '\n')
+    elif url == 'other-missing':
+        md['url'] = 'no-such-file.csv'
     if dialect:
         md['dialect'] = dialect
     path = os.path.join(d, name + '-metadata.json')
@@ -201,7 +211,8 @@ def gen_table(rng, i):
                 c['titles_as'] = how
     return {'cols': cols, 'nrows': n, 'delimiter': [',', '|', '\t', ';'][i % 4], 'encoding': ['utf-8', 'latin-1', 'utf-16'][(i // 4) % 3],
             'header': (i // 2) % 2 == 0 or rng.random() < 0.5, 'bool': spell,
-            'header_decl': ['both', 'header', 'count'][(i // 5) % 3]}
+            'header_decl': ['both', 'header', 'count'][(i // 5) % 3],
+            'url': rng.choice(['same', 'same', 'same', 'absent', 'other-existing', 'other-missing'])}
 
 
 def run_table_case(ctx, case):
@@ -262,10 +273,10 @@ def run_table_case(ctx, case):
             dialect['header'] = False
         if how in ('both', 'count'):
             dialect['headerRowCount'] = 0
-    mdpath = write_md(d, 'tab', columns, dialect)
+    mdpath = write_md(d, 'tab', columns, dialect, url=t.get('url', 'same'))
     nonnull = any(v is not None for c in t['cols'] for v in c['values'])
     cls = [('part=table',), ('delimiter=' + ('tab' if t['delimiter'] == '\t' else t['delimiter']),), ('encoding=' + enc,),
-           ('header=%d' % t['header'],), ('bool=' + t['bool'],), ('titles=%d' % any(c.get('title') for c in t['cols']),),
+           ('header=%d' % t['header'],), ('bool=' + t['bool'],), ('titles=%d' % any(c.get('title') for c in t['cols']),), ('url=' + t.get('url', 'same'),),
            ('format_spellings=' + '+'.join(sorted(set(c.get('format_spelling', 'inner') for c in t['cols'] if c['type'] in ('date', 'datetime', 'boolean')))),),
            ('n_bool_spellings=%d' % len(set(c.get('bool') for c in t['cols'] if c['type'] == 'boolean')),)] + [('type=' + c['type'],) for c in t['cols']]
     rec.case(case, nontrivial=nonnull, cls=cls)
